@@ -119,6 +119,10 @@ def step (x : S) (w : List String) : Option (S × String × List String) :=
     let reads := s.reads.map fun r => (r.1, r.2.2)
     let okRets := x.rets.all fun p => countOf x.rets p ≤ countOf reads p
     if !okRets then rej x "a caller received a value that no Get event of the model explains" else
+    -- … and the converse (C05: a failed Get consumes nothing): every value a Get obtained under the buffer lock was handed to
+    -- the caller of that Get (all Gets have returned by now)
+    let okReads := reads.all fun p => countOf reads p ≤ countOf x.rets p
+    if !okReads then rej x "a Get obtained a value under the buffer lock but its caller got an error: a failed Get consumed a value" else
     if (s.base : Int) != base || (s.buf.length : Int) != len then rej x s!"final state: model base={s.base} len={s.buf.length}" else
     if first != (match s.buf.head? with | some v => (v : Int) | none => -1) then rej x "final buffer head differs" else
     some (x, "ok", if x.shifted then ["quiet_reclaim"] else [])
